@@ -101,21 +101,42 @@ template <> struct GInfo<UndirectedWeightedGraph> {
 };
 
 // label <-> abstract integer for the three kinds
+// Weighted classes, variant 1: weights that are NOT exactly representable and differ by
+// several orders of magnitude, so that running sums depend on the order of operations
+// (the "within accumulated rounding error" regime of C05; operator== must not depend on it).
+inline double inexactWeight(int a) {
+    switch (a) {
+    case -1: return -0.1;
+    case 0: return 0.0;
+    case 1: return 0.3;
+    case 2: return 7000.3;
+    case 3: return 0.7;
+    default: return 1.1 * a;
+    }
+}
 template <class G> struct Lab {
     using I = GInfo<G>;
     using L = typename I::Label;
-    static L enc(int a) {
+    static L enc(int a, int variant = 0) {
         if constexpr (I::kind == KindTag::Labeled)
             return Codec<L>::enc(a);
+        else if constexpr (I::kind == KindTag::Weighted)
+            return variant ? inexactWeight(a) : (L)a;
         else
             return (L)a;
     }
-    static int dec(const L &v) {
+    static int dec(const L &v, int variant = 0) {
         if constexpr (I::kind == KindTag::Labeled)
             return Codec<L>::dec(v);
         else if constexpr (I::kind == KindTag::Multi)
             return v > 1000000u ? UNKNOWN_L : (int)v;
         else {
+            if (variant) {
+                for (int a = -1; a <= 3; ++a)
+                    if (inexactWeight(a) == v)
+                        return a;
+                return UNKNOWN_L;
+            }
             double r = std::nearbyint(v);
             return (r == v && std::fabs(v) < 1e6) ? (int)r : UNKNOWN_L;
         }
@@ -137,13 +158,14 @@ template <class G> class Obj : public IObj {
 
   public:
     G g;
+    int variant = 0; // weighted classes: 1 = inexact weights
     Obj() : g(0) {}
-    explicit Obj(const G &o) : g(o) {}
+    explicit Obj(const G &o, int v = 0) : g(o), variant(v) {}
 
     std::unique_ptr<IObj> clone() const override {
-        return std::unique_ptr<IObj>(new Obj<G>(g)); // copy constructor of the class
+        return std::unique_ptr<IObj>(new Obj<G>(g, variant)); // copy constructor of the class
     }
-    std::string family() const override { return I::name(); }
+    std::string family() const override { return I::name() + (variant ? "[inexact weights]" : ""); }
     bool equals(const IObj &o) const override { return g == static_cast<const Obj<G> &>(o).g; }
     bool differs(const IObj &o) const override { return g != static_cast<const Obj<G> &>(o).g; }
     void assignFrom(const IObj &o) override { g = static_cast<const Obj<G> &>(o).g; }
@@ -237,9 +259,9 @@ template <class G> class Obj : public IObj {
                     throw std::logic_error("unknown op " + op);
             } else {
                 if (op == "addEdge")
-                    g.addEdge(I_(), J_(), (double)c.at("w").get<int>(), F_());
+                    g.addEdge(I_(), J_(), Lab<G>::enc(c.at("w").get<int>(), variant), F_());
                 else if (op == "setEdgeWeight")
-                    g.setEdgeWeight(I_(), J_(), (double)c.at("w").get<int>());
+                    g.setEdgeWeight(I_(), J_(), Lab<G>::enc(c.at("w").get<int>(), variant));
                 else if (op == "getEdgeWeight")
                     (void)g.getEdgeWeight(I_(), J_());
                 else if (op == "addReciprocalEdge") {
@@ -275,7 +297,7 @@ template <class G> class Obj : public IObj {
             return NONE_L;
         }
         try {
-            return Lab<G>::dec(baseView(g).getEdgeLabel(i, j));
+            return Lab<G>::dec(baseView(g).getEdgeLabel(i, j), variant);
         } catch (const std::invalid_argument &) {
             return NONE_L;
         } catch (const std::exception &e) {
@@ -334,9 +356,9 @@ template <class G> class Obj : public IObj {
             for (VertexIndex j = 0; j < n; ++j) {
                 has[i][j] = g.hasEdge(i, j) ? 1 : 0;
                 lab[i][j] = labelThrowing(i, j, bad);
-                labd[i][j] = nolabel ? 0 : Lab<G>::dec(baseView(g).getEdgeLabel(i, j, false));
+                labd[i][j] = nolabel ? 0 : Lab<G>::dec(baseView(g).getEdgeLabel(i, j, false), variant);
                 for (int l = 0; l < 3; ++l)
-                    hasl[l][i][j] = baseView(g).hasEdge(i, j, Lab<G>::enc(l)) ? 1 : 0;
+                    hasl[l][i][j] = baseView(g).hasEdge(i, j, Lab<G>::enc(l, variant)) ? 1 : 0;
             }
         o["has"] = has;
         o["lab"] = lab;
@@ -428,24 +450,40 @@ template <class G> class Obj : public IObj {
             o["mult"] = mu;
         } else if constexpr (I::kind == KindTag::Weighted) {
             long double t = g.getTotalWeight();
-            long double r = std::nearbyint(t);
-            if (r != t) {
-                bad += "total weight not integral; ";
-                o["tot"] = (double)t;
-            } else
-                o["tot"] = (long long)r;
+            if (variant) {
+                // inexact regime: the total must be within accumulated rounding error of the
+                // sum of the weights of the edges present; reported in abstract units
+                long double sum = 0;
+                long long abstractSum = 0;
+                for (auto e : g.edges()) {
+                    sum += (long double)g.getEdgeWeight(e.first, e.second);
+                    abstractSum += Lab<G>::dec(g.getEdgeWeight(e.first, e.second), variant);
+                }
+                if (std::fabs((double)(t - sum)) > 1e-6) {
+                    bad += "total weight differs from the sum of the edge weights beyond rounding error; ";
+                    o["tot"] = (double)t;
+                } else
+                    o["tot"] = abstractSum;
+            } else {
+                long double r = std::nearbyint(t);
+                if (r != t) {
+                    bad += "total weight not integral; ";
+                    o["tot"] = (double)t;
+                } else
+                    o["tot"] = (long long)r;
+            }
             json wm = zeroMat(n);
             auto w = g.getWeightMatrix();
             if (w.size() != n)
                 bad += "weight matrix size; ";
             for (VertexIndex i = 0; i < n && i < w.size(); ++i)
                 for (VertexIndex j = 0; j < n && j < w[i].size(); ++j)
-                    wm[i][j] = Lab<G>::dec(w[i][j]);
+                    wm[i][j] = (w[i][j] == 0 && !g.hasEdge(i, j)) ? 0 : Lab<G>::dec(w[i][j], variant);
             o["wmat"] = wm;
             // the class's own getEdgeWeight agrees with the labelled view
             for (VertexIndex i = 0; i < n; ++i)
                 for (VertexIndex j = 0; j < n; ++j) {
-                    int a = Lab<G>::dec(g.getEdgeWeight(i, j, false));
+                    int a = Lab<G>::dec(g.getEdgeWeight(i, j, false), variant);
                     if (a != labd[i][j].get<int>())
                         bad += "getEdgeWeight(.,.,false) != label; ";
                     bool thr = false;
@@ -485,9 +523,15 @@ template <class G> class Obj : public IObj {
         e["en"] = g.getEdgeNumber();
         if constexpr (I::kind == KindTag::Multi)
             e["tot"] = g.getTotalEdgeNumber();
-        else if constexpr (I::kind == KindTag::Weighted)
-            e["tot"] = (long long)std::nearbyint(g.getTotalWeight());
-        else
+        else if constexpr (I::kind == KindTag::Weighted) {
+            if (variant) {
+                long long abstractSum = 0;
+                for (auto ed : g.edges())
+                    abstractSum += Lab<G>::dec(g.getEdgeWeight(ed.first, ed.second), variant);
+                e["tot"] = abstractSum; // closeness of the real total is judged in project()
+            } else
+                e["tot"] = (long long)std::nearbyint(g.getTotalWeight());
+        } else
             e["tot"] = 0;
         if (!bad.empty())
             e["inconsistent"] = bad;
